@@ -7,6 +7,16 @@ require (
 	github.com/vektah/gqlparser/v2 v2.5.19
 )
 
-require github.com/google/uuid v1.6.0 // indirect
+require (
+	github.com/agnivade/levenshtein v1.1.1 // indirect
+	github.com/alexflint/go-arg v1.5.1 // indirect
+	github.com/alexflint/go-scalar v1.2.0 // indirect
+	github.com/bmatcuk/doublestar/v4 v4.6.1 // indirect
+	github.com/google/uuid v1.6.0 // indirect
+	golang.org/x/mod v0.20.0 // indirect
+	golang.org/x/sync v0.8.0 // indirect
+	golang.org/x/tools v0.24.0 // indirect
+	gopkg.in/yaml.v2 v2.4.0 // indirect
+)
 
 replace github.com/Khan/genqlient => /repo
